@@ -124,4 +124,202 @@ Proof.
     + exact (Hone _ _ _ H).
 Qed.
 
+(* the cursor only moves forward *)
+Lemma next_row_cases s o s1 orow :
+  next_row pol rows s o = ROk (s1, orow) ->
+  (orow = None /\ s1 = s /\ nth_error rows (p_pos s) = None)
+  \/ (exists r row, orow = Some row /\ nth_error rows (p_pos s) = Some r /\ p_pos s1 = S (p_pos s)).
+Proof.
+  unfold next_row. destruct (nth_error rows (p_pos s)) as [r|] eqn:En.
+  - destruct o.
+    + intros H. inversion H; subst. right. exists r. eexists. repeat split.
+    + destruct (instantiate pol (p_ctx s) r) as [i|e]; intros H; inversion H; subst.
+      right. exists r, i. repeat split.
+  - intros H. inversion H; subst. left. repeat split.
+Qed.
+
+Lemma loop_iter_pos (body : pst -> res pst) bookmark x idx :
+  (forall st st', body st = ROk st' -> p_pos st <= p_pos st') ->
+  forall elems n st st', loop_iter body bookmark x idx elems n st = ROk st' ->
+    p_pos st' = p_pos st \/ bookmark <= p_pos st'.
+Proof.
+  intros Hb. induction elems as [|e more IH]; intros n st st' H; cbn [loop_iter] in H.
+  - inversion H; subst. left. reflexivity.
+  - destruct (body (mkP bookmark (bind_loop (p_ctx st) x idx e n) (EvEnter BFor false :: p_log st))) as [st1|] eqn:E1; [|discriminate].
+    apply Hb in E1. cbn [p_pos] in E1. right. destruct (IH _ _ _ H) as [Hp|Hp]; lia.
+Qed.
+
+Theorem pos_mono : forall f s bt o s', PB f s bt o = ROk s' -> p_pos s <= p_pos s'.
+Proof.
+  induction f as [|f IH]; intros s bt o s' H; cbn [parse_block] in H; [discriminate|].
+  destruct (next_row pol rows s o) as [[s1 orow]|] eqn:En; [|discriminate].
+  assert (H1 : p_pos s <= p_pos s1).
+  { destruct (next_row_cases _ _ _ _ En) as [[_ [-> _]]|[r [row [_ [_ Hp]]]]]; lia. }
+  destruct (end_of_block bt (option_map i_kind orow)) as [[|]|]; [inversion H; subst; exact H1| |discriminate].
+  destruct orow as [row|]; [|discriminate].
+  assert (Hseq : forall X b o1 (K : pst -> res pst),
+             p_pos s <= p_pos X ->
+             (forall s2, p_pos s <= p_pos s2 -> K s2 = ROk s' -> p_pos s <= p_pos s') ->
+             match PB f X b o1 with ROk s2 => K s2 | RErr e => RErr e end = ROk s' -> p_pos s <= p_pos s').
+  { intros X b o1 K HX HK Hm. destruct (PB f X b o1) as [s2|] eqn:E; [|discriminate].
+    apply IH in E. apply (HK s2); [lia|exact Hm]. }
+  assert (Hone : forall X b o1, PB f X b o1 = ROk s' -> p_pos s <= p_pos X -> p_pos s <= p_pos s').
+  { intros X b o1 E HX. apply IH in E. lia. }
+  destruct (o || negb (i_inc row)).
+  - destruct (i_kind row).
+    + refine (Hseq _ _ _ _ _ _ H); [exact H1|]. intros s2 H2 E. exact (Hone _ _ _ E H2).
+    + exact (Hone _ _ _ H H1).
+    + refine (Hseq _ _ _ _ _ _ H); [exact H1|]. intros s2 H2 E. exact (Hone _ _ _ E H2).
+    + exact (Hone _ _ _ H H1).
+    + exact (Hone _ _ _ H H1).
+  - destruct (i_kind row).
+    + destruct (i_vars row) as [|x more]; [discriminate|]. destruct x as [|x0 xr]; [discriminate|].
+      set (x := x0 :: xr) in *.
+      set (idx := match more with i :: _ => match i with [] => None | _ => Some i end | [] => None end) in *.
+      destruct (loop_iter (fun st => PB f st BFor false) (p_pos s1) x idx (i_iter row) 0 (log s1 EvPush)) as [s3|] eqn:E3; [|discriminate].
+      assert (H3 : p_pos s <= p_pos s3).
+      { destruct (loop_iter_pos _ _ x idx (fun st st' Hb => IH _ _ _ _ Hb) _ _ _ _ E3) as [Hp|Hp]; cbn [log p_pos] in Hp; lia. }
+      assert (Hk : forall s3', p_pos s <= p_pos s3' ->
+                 match crestore tol (p_ctx (log s3' (EvEnd (i_id row)))) x (saved_of scope (p_ctx s1) x) with
+                 | Some c1 =>
+                   match idx with
+                   | Some i => match crestore tol c1 i match idx with Some i0 => saved_of scope (p_ctx s1) i0 | None => None end with
+                               | Some c2 => PB f (mkP (p_pos (log s3' (EvEnd (i_id row)))) c2 (p_log (log s3' (EvEnd (i_id row))))) bt o
+                               | None => RErr KeyErr
+                               end
+                   | None => PB f (mkP (p_pos (log s3' (EvEnd (i_id row)))) c1 (p_log (log s3' (EvEnd (i_id row))))) bt o
+                   end
+                 | None => RErr KeyErr
+                 end = ROk s' -> p_pos s <= p_pos s').
+      { intros s3' H3' Hm.
+        destruct (crestore tol (p_ctx (log s3' (EvEnd (i_id row)))) x (saved_of scope (p_ctx s1) x)) as [c1|]; [|discriminate].
+        destruct idx as [i|]; [|exact (Hone _ _ _ Hm H3')].
+        destruct (crestore tol c1 i (saved_of scope (p_ctx s1) i)) as [c2|]; [|discriminate].
+        exact (Hone _ _ _ Hm H3'). }
+      destruct (i_iter row) as [|e0 el]; [destruct emp|].
+      * exact (Hk _ H3 H).
+      * refine (Hseq _ _ _ _ _ _ H); [exact H3|]. intros s2 H2 E. exact (Hk _ H2 E).
+      * exact (Hk _ H3 H).
+    + exact (Hone _ _ _ H H1).
+    + refine (Hseq _ _ _ _ _ _ H); [exact H1|]. intros s2 H2 E. exact (Hone _ _ _ E H2).
+    + exact (Hone _ _ _ H H1).
+    + exact (Hone _ _ _ H H1).
+Qed.
+
+(* the only error of templating is an undefined name *)
+Lemma render_err c t e : render pol c t = RErr e -> e = Undefined.
+Proof.
+  induction t as [|[sg|x] t IH]; cbn [render]; intros H; [discriminate| |].
+  - destruct (render pol c t); [discriminate|]. inversion H; subst. apply IH. reflexivity.
+  - destruct (cget c x).
+    + destruct (render pol c t); [discriminate|]. inversion H; subst. apply IH. reflexivity.
+    + destruct pol; [inversion H; reflexivity|exact (IH H)].
+Qed.
+
+Lemma instantiate_err c r e : instantiate pol c r = RErr e -> e = Undefined.
+Proof.
+  unfold instantiate. destruct (eval_inc pol c (rw_inc r)) as [[|]|e0] eqn:Ei.
+  - destruct (render pol c (rw_id r)) as [i|e1] eqn:E1.
+    + destruct (render pol c (rw_text r)) as [t|e2] eqn:E2.
+      * destruct (rw_kind r); try discriminate.
+        unfold eval_iter. destruct (rw_iter r) as [l|x]; [discriminate|].
+        destruct (cget c x) as [[sv|lv]|]; try discriminate. intros H; inversion H; reflexivity.
+      * intros H; inversion H; subst. exact (render_err _ _ _ E2).
+    + intros H. assert (e = e1) by (destruct (render pol c (rw_text r)); inversion H; reflexivity). subst. exact (render_err _ _ _ E1).
+  - discriminate.
+  - intros H; inversion H; subst. unfold eval_inc in Ei. destruct (rw_inc r) as [| |x]; try discriminate.
+    destruct (cget c x); [discriminate|]. destruct pol; inversion Ei; reflexivity.
+Qed.
+
+Lemma next_row_err s o e : next_row pol rows s o = RErr e -> e = Undefined.
+Proof.
+  unfold next_row. destruct (nth_error rows (p_pos s)) as [r|]; [|discriminate].
+  destruct o; [discriminate|]. destruct (instantiate pol (p_ctx s) r) eqn:Ei; [discriminate|].
+  intros H; inversion H; subst. exact (instantiate_err _ _ _ Ei).
+Qed.
+
+Lemma end_of_block_err bt k e : end_of_block bt k = RErr e -> e <> OutOfFuel.
+Proof. destruct bt, k as [[]|]; cbn; intros H; inversion H; discriminate. Qed.
+
+Lemma loop_iter_no_oof (body : pst -> res pst) bookmark x idx :
+  (forall st, p_pos st = bookmark -> body st <> RErr OutOfFuel) ->
+  forall elems n st, loop_iter body bookmark x idx elems n st <> RErr OutOfFuel.
+Proof.
+  intros Hb. induction elems as [|e more IH]; intros n st; cbn [loop_iter]; [discriminate|].
+  destruct (body (mkP bookmark (bind_loop (p_ctx st) x idx e n) (EvEnter BFor false :: p_log st))) as [st1|e1] eqn:E1.
+  - apply IH.
+  - intros Heq. inversion Heq; subst. refine (Hb _ _ E1). reflexivity.
+Qed.
+
+(* one unit per row that is still to be read, and one to see the end *)
+Theorem no_out_of_fuel : forall f s bt o, length rows - p_pos s < f -> PB f s bt o <> RErr OutOfFuel.
+Proof.
+  induction f as [|f IH]; intros s bt o Hf; [lia|]. cbn [parse_block].
+  destruct (next_row pol rows s o) as [[s1 orow]|e] eqn:En.
+  2:{ apply next_row_err in En. subst. discriminate. }
+  destruct (end_of_block bt (option_map i_kind orow)) as [[|]|e] eqn:Ee; [discriminate| |].
+  2:{ apply end_of_block_err in Ee. intros Heq. inversion Heq. contradiction. }
+  destruct (next_row_cases _ _ _ _ En) as [[-> _]|[r [row [-> [Hr Hp]]]]]; [discriminate|].
+  assert (Hlen : p_pos s < length rows) by (apply nth_error_Some; rewrite Hr; discriminate).
+  assert (H1 : length rows - p_pos s1 < f) by lia.
+  assert (Hseq : forall X b o1 (K : pst -> res pst),
+             length rows - p_pos X < f ->
+             (forall s2, p_pos X <= p_pos s2 -> K s2 <> RErr OutOfFuel) ->
+             match PB f X b o1 with ROk s2 => K s2 | RErr e => RErr e end <> RErr OutOfFuel).
+  { intros X b o1 K HX HK. destruct (PB f X b o1) as [s2|e] eqn:E.
+    - apply HK. exact (pos_mono _ _ _ _ _ E).
+    - intros Heq. inversion Heq; subst. exact (IH _ _ _ HX E). }
+  destruct (o || negb (i_inc row)).
+  - destruct (i_kind row).
+    + apply Hseq; [exact H1|]. intros s2 H2. apply IH. cbn [log p_pos] in H2. lia.
+    + apply IH. exact H1.
+    + apply Hseq; [exact H1|]. intros s2 H2. apply IH. cbn [log p_pos] in H2. lia.
+    + apply IH. exact H1.
+    + apply IH. exact H1.
+  - destruct (i_kind row).
+    + destruct (i_vars row) as [|x more]; [discriminate|]. destruct x as [|x0 xr]; [discriminate|].
+      set (x := x0 :: xr) in *.
+      set (idx := match more with i :: _ => match i with [] => None | _ => Some i end | [] => None end) in *.
+      destruct (loop_iter (fun st => PB f st BFor false) (p_pos s1) x idx (i_iter row) 0 (log s1 EvPush)) as [s3|e3] eqn:E3.
+      2:{ intros Heq. inversion Heq; subst.
+          refine (loop_iter_no_oof _ (p_pos s1) x idx _ _ _ _ E3). intros st Hst. apply IH. lia. }
+      assert (H3 : length rows - p_pos s3 < f).
+      { destruct (loop_iter_pos _ _ x idx (fun st st' Hb => pos_mono _ _ _ _ _ Hb) _ _ _ _ E3) as [Hq|Hq]; cbn [log p_pos] in Hq; lia. }
+      assert (Hk : forall s3', length rows - p_pos s3' < f ->
+                 match crestore tol (p_ctx (log s3' (EvEnd (i_id row)))) x (saved_of scope (p_ctx s1) x) with
+                 | Some c1 =>
+                   match idx with
+                   | Some i => match crestore tol c1 i match idx with Some i0 => saved_of scope (p_ctx s1) i0 | None => None end with
+                               | Some c2 => PB f (mkP (p_pos (log s3' (EvEnd (i_id row)))) c2 (p_log (log s3' (EvEnd (i_id row))))) bt o
+                               | None => RErr KeyErr
+                               end
+                   | None => PB f (mkP (p_pos (log s3' (EvEnd (i_id row)))) c1 (p_log (log s3' (EvEnd (i_id row))))) bt o
+                   end
+                 | None => RErr KeyErr
+                 end <> RErr OutOfFuel).
+      { intros s3' H3'.
+        destruct (crestore tol (p_ctx (log s3' (EvEnd (i_id row)))) x (saved_of scope (p_ctx s1) x)) as [c1|]; [|discriminate].
+        destruct idx as [i|]; [|apply IH; exact H3'].
+        destruct (crestore tol c1 i (saved_of scope (p_ctx s1) i)) as [c2|]; [|discriminate].
+        apply IH; exact H3'. }
+      destruct (i_iter row) as [|e0 el]; [destruct emp|].
+      * apply Hk. exact H3.
+      * apply Hseq; [exact H3|]. intros s2 H2. apply Hk. cbn [log p_pos] in H2. lia.
+      * apply Hk. exact H3.
+    + apply IH. exact H1.
+    + apply Hseq; [exact H1|]. intros s2 H2. apply IH. cbn [log p_pos] in H2 |- *. lia.
+    + apply IH. exact H1.
+    + apply IH. exact H1.
+Qed.
+
+(* the result does not depend on the fuel once there is enough of it *)
+Corollary fuel_irrelevant f g s bt o r :
+  PB f s bt o = r -> r <> RErr OutOfFuel -> length rows - p_pos s < g -> PB g s bt o = r.
+Proof.
+  intros H Hne Hg. destruct (Nat.le_ge_cases f g) as [Hle|Hle].
+  - exact (parse_block_mono _ _ _ _ _ H Hne _ Hle).
+  - pose proof (no_out_of_fuel _ _ bt o Hg) as Hn.
+    pose proof (parse_block_mono _ _ _ _ _ eq_refl Hn _ Hle) as Hm. congruence.
+Qed.
+
 End Fuel.
